@@ -1,5 +1,5 @@
 (* C12 — LSB0 mode is a pure index mirror of MSB0 mode (statements; SeqProofs.v). *)
-From BS Require Import Prims BitsCore Search Mutators SeqProofs MirrorProofs SearchProofs SearchTop LsbSearch LsbMutators.
+From BS Require Import Prims BitsCore Search Mutators SeqProofs MirrorProofs SearchProofs SearchTop LsbSearch LsbMutators LsbSplit MirrorStep.
 Open Scope Z_scope.
 
 (* bit i of X in lsb0 numbering is bit i of (rev X) in msb0 numbering, for every index incl. negative and out of range *)
@@ -66,6 +66,85 @@ Proof. vm_compute. reflexivity. Qed.
 Theorem C12_len_mode_free : forall b, bs_len (rev b) = bs_len b.
 Proof. exact mirror_len. Qed.
 
+(* startswith, endswith, cut and replace under lsb0 = the msb0 operation on the bit-reversed operands with the same position arguments, reversed back
+   (every window, count, alignment; same errors) *)
+Theorem C12_mirror_startswith : forall d p start stop, bs_startswith true d p start stop = bs_startswith false (rev d) (rev p) start stop.
+Proof. exact startswith_mirror. Qed.
+Theorem C12_mirror_endswith : forall d p start stop, bs_endswith true d p start stop = bs_endswith false (rev d) (rev p) start stop.
+Proof. exact endswith_mirror. Qed.
+Theorem C12_mirror_cut : forall d n start stop count,
+  bs_cut true d n start stop count = res_map (map (@rev bool)) (bs_cut false (rev d) n start stop count).
+Proof. exact cut_mirror. Qed.
+Theorem C12_mirror_replace : forall d old new_ start stop count ba,
+  ba_replace true d old new_ start stop count ba = res_map (fun '(r, n) => (rev r, n)) (ba_replace false (rev d) (rev old) (rev new_) start stop count ba).
+Proof. exact replace_mirror. Qed.
+(* split is NOT in the property's list of mirrored operations, and indeed does not obey the mirror law (Bits.split searches with _find_msb0 and slices with
+   the mode-dependent _slice; tests/test_bitarray.py::TestLsb0Setting::test_split pins the outcome). What it does, for all inputs: it slices the bit-reversed
+   data at the MSB0 cut positions of the data and delimiter themselves; the law holds for a call exactly when those cut positions equal the ones of the
+   reversed operands (refuted by the witness below); the pieces still tile the lsb0 window. *)
+Theorem C12_split_lsb0_exact : forall d p start stop count ba,
+  bs_split true d p start stop count ba = res_map (fun cs => map (@rev bool) (slices (rev d) cs)) (split_cuts d p start stop count ba).
+Proof. exact split_lsb0_via_cuts. Qed.
+Theorem C12_split_mirror_iff : forall d p start stop count ba,
+  bs_split true d p start stop count ba = res_map (map (@rev bool)) (bs_split false (rev d) (rev p) start stop count ba)
+  <-> split_cuts d p start stop count ba = split_cuts (rev d) (rev p) start stop count ba.
+Proof. exact split_mirror_iff. Qed.
+Theorem C12_split_mirror_refuted : exists d p,
+  bs_split true d p None None None false <> res_map (map (@rev bool)) (bs_split false (rev d) (rev p) None None None false).
+Proof. exists [false; true], [false]. vm_compute. discriminate. Qed.
+Theorem C12_split_lsb0_tiles_the_window : forall d p start stop ba s e, p <> [] -> validate_slice d start stop = Ok (s, e) ->
+  exists pieces, bs_split true d p start stop None ba = Ok pieces /\ concat (rev pieces) = sub d (zlen d - e) (zlen d - s) /\
+                 getslice true d (Some s) (Some e) = Ok (concat (rev pieces)).
+Proof. exact split_lsb0_partitions_window. Qed.
+Example C12_split_mirror_holds_sometimes :
+  let d := [true; false; false; true; false] in let p := [true; false] in
+  split_cuts d p None None None false = split_cuts (rev d) (rev p) None None None false /\
+  split_cuts d p None None None false = Ok [(0, 0); (0, 3); (3, 5)] /\
+  bs_split true d p None None None false = Ok [[]; [false; true; false]; [true; false]].
+Proof. exact split_mirror_holds_sometimes. Qed.
+(* slice assignment and deletion with ANY key (any step), scalar fill, set / invert over iterables and ranges (partial effect and error included),
+   item / slice assignment through __setitem__ (bitstring operands mirrored, integers encoded identically in both modes), overwrite, append, prepend,
+   *=, and byteswap (content, returned count, errors): each is the msb0 operation on the bit-reversed operands, reversed back *)
+Theorem C12_mirror_slice_assignment_any_step : forall b k v, setslice_lsb0 b k v = res_map (@rev bool) (setslice_msb0 (rev b) k (rev v)).
+Proof. exact mirror_setslice. Qed.
+Theorem C12_mirror_slice_deletion_any_step : forall b k, delslice_lsb0 b k = res_map (@rev bool) (delslice_msb0 (rev b) k).
+Proof. exact mirror_delslice. Qed.
+Theorem C12_mirror_scalar_fill : forall b k x, setslice_scalar true b k x = res_map (@rev bool) (setslice_scalar false (rev b) k x).
+Proof. exact mirror_setslice_scalar. Qed.
+Theorem C12_mirror_set_positions : forall v ps b, set_list true b v ps = run_map (@rev bool) (set_list false (rev b) v ps).
+Proof. exact mirror_set_list. Qed.
+Theorem C12_mirror_invert_positions : forall ps b, invert_list true b ps = run_map (@rev bool) (invert_list false (rev b) ps).
+Proof. exact mirror_invert_list. Qed.
+Theorem C12_mirror_set_range : forall b v a s c, ba_set_range true b v a s c = run_map (@rev bool) (ba_set_range false (rev b) v a s c).
+Proof. exact mirror_set_range. Qed.
+Theorem C12_mirror_setitem_slice_bits : forall b k v,
+  ba_setitem_slice true b k (VBits v) = res_map (@rev bool) (ba_setitem_slice false (rev b) k (VBits (rev v))).
+Proof. exact mirror_setitem_slice_bits. Qed.
+Theorem C12_mirror_setitem_slice_fill : forall b k v, unit_step k = false ->
+  ba_setitem_slice true b k (VInt v) = res_map (@rev bool) (ba_setitem_slice false (rev b) k (VInt v)).
+Proof. exact mirror_setitem_slice_fill. Qed.
+Theorem C12_mirror_setitem_int : forall b key value,
+  ba_setitem_int true b key value = res_map (@rev bool) (ba_setitem_int false (rev b) key (rev_setval value)).
+Proof. exact mirror_setitem_int. Qed.
+Theorem C12_mirror_delitem : forall b k i,
+  ba_delitem_slice true b k = res_map (@rev bool) (ba_delitem_slice false (rev b) k) /\
+  ba_delitem_int true b i = res_map (@rev bool) (ba_delitem_int false (rev b) i).
+Proof. intros. split; [apply mirror_delitem_slice|apply mirror_delitem_int]. Qed.
+Theorem C12_mirror_overwrite : forall same b bs pos, ba_overwrite true same b bs pos = res_map (@rev bool) (ba_overwrite false same (rev b) (rev bs) pos).
+Proof. exact mirror_overwrite. Qed.
+Theorem C12_mirror_append_prepend : forall b bs,
+  ba_append true b bs = rev (ba_append false (rev b) (rev bs)) /\ ba_prepend true b bs = rev (ba_prepend false (rev b) (rev bs)).
+Proof. intros. split; [apply mirror_append|apply mirror_prepend]. Qed.
+Theorem C12_mirror_imul : forall b n, ba_imul true b n = res_map (@rev bool) (ba_imul false (rev b) n).
+Proof. exact mirror_imul. Qed.
+Theorem C12_mirror_byteswap : forall b sizes start stop repeat_,
+  ba_byteswap true b sizes start stop repeat_ = res_map rev_fst (ba_byteswap false (rev b) sizes start stop repeat_).
+Proof. exact mirror_byteswap. Qed.
+(* read item by item: under lsb0 an extended-step assignment puts item j of the value (lsb0 numbering) at lsb0 position start + j*step *)
+Theorem C12_extended_assignment_item_by_item : forall b k v r a o c,
+  slice_indices k (zlen b) = Ok (a, o, c) -> c <> 1 -> setslice_lsb0 b k v = Ok r ->
+  zlen r = zlen b /\ zlen v = range_len a o c /\ forall j, 0 <= j < zlen v -> getindex_lsb0 r (a + j * c) = getindex_lsb0 v j.
+Proof. exact setslice_lsb0_items. Qed.
 Print Assumptions C12_mirror_getindex.
 Print Assumptions C12_mirror_getslice_positive_step.
 Print Assumptions C12_len_mode_free.
@@ -84,3 +163,26 @@ Print Assumptions C12_lsb0_findall_is_brute_force_on_the_mirror.
 Print Assumptions C12_mirror_reverse.
 Print Assumptions C12_mirror_ror_rol.
 Print Assumptions C12_mirror_insert.
+Print Assumptions C12_mirror_startswith.
+Print Assumptions C12_mirror_endswith.
+Print Assumptions C12_mirror_cut.
+Print Assumptions C12_mirror_replace.
+Print Assumptions C12_split_lsb0_exact.
+Print Assumptions C12_split_mirror_iff.
+Print Assumptions C12_split_mirror_refuted.
+Print Assumptions C12_split_lsb0_tiles_the_window.
+Print Assumptions C12_mirror_slice_assignment_any_step.
+Print Assumptions C12_mirror_slice_deletion_any_step.
+Print Assumptions C12_mirror_scalar_fill.
+Print Assumptions C12_mirror_set_positions.
+Print Assumptions C12_mirror_invert_positions.
+Print Assumptions C12_mirror_set_range.
+Print Assumptions C12_mirror_setitem_slice_bits.
+Print Assumptions C12_mirror_setitem_slice_fill.
+Print Assumptions C12_mirror_setitem_int.
+Print Assumptions C12_mirror_delitem.
+Print Assumptions C12_mirror_overwrite.
+Print Assumptions C12_mirror_append_prepend.
+Print Assumptions C12_mirror_imul.
+Print Assumptions C12_mirror_byteswap.
+Print Assumptions C12_extended_assignment_item_by_item.
